@@ -71,6 +71,29 @@ def generate(rng: random.Random, tier: str) -> dict:
     return {"v": 1, "uuid_seed": rng.getrandbits(40), "t0": rng.choice([0.0, 1.7e9, 1.7e9 + 0.123]), "ops": ops}
 
 
+def systematic(tier: str):
+    """Expiry boundary on a grid: two sessions, the second touched (update / request / nothing) at some point, the clock placed at
+    max_age + eps for every eps of a small set relative to either session, then cleanup with that max_age."""
+    out = []
+    for max_age in MAX_AGES:
+        for touch in (None, "update", "request"):
+            for which in (0, 1):
+                for eps in (-1, -0.001, 0.0, 0.001, 1):
+                    for t0 in (0.0, 1.7e9 + 0.123):
+                        ops = [{"op": "create", "info": {"name": "a"}, "version": VERSIONS[0], "meta": None},
+                               {"op": "clock", "how": "advance", "which": 0, "max_age": max_age, "eps": 0.0, "dt": 0.25},
+                               {"op": "create", "info": {"name": "b"}, "version": VERSIONS[0], "meta": None}]
+                        if touch == "update":
+                            ops += [{"op": "clock", "how": "advance", "which": 0, "max_age": max_age, "eps": 0.0, "dt": 1}, {"op": "update", "which": 1}]
+                        elif touch == "request":
+                            ops += [{"op": "clock", "how": "advance", "which": 0, "max_age": max_age, "eps": 0.0, "dt": 1},
+                                    {"op": "request", "which": 1, "notification": False, "method": "ping", "sleep": 1}]
+                        ops += [{"op": "clock", "how": "to_boundary", "which": which, "max_age": max_age, "eps": eps, "dt": 1},
+                                {"op": "cleanup", "max_age": max_age}, {"op": "count"}, {"op": "get", "which": 0}, {"op": "get", "which": 1}]
+                        out.append({"v": 1, "uuid_seed": 31337, "t0": t0, "ops": ops})
+    return out
+
+
 def simplify(scn):
     for i, op in enumerate(scn["ops"]):
         if op["op"] == "request" and op.get("method") == "slow":
